@@ -578,6 +578,9 @@ const Call *HandOver::apply(Session &ss, const Op &op) {
     const Call &c = dir == 0 ? ss.req(chunk) : ss.res(chunk);
     blocked[1 - dir] = false; // the other direction has now been offered data
     if (c.rc == HTP_STREAM_DATA_OTHER) { pending[dir] = chunk.substr(std::min(c.consumed, chunk.size())); blocked[dir] = true; }
+    // progress: a caller that follows the hand-over must not ping-pong forever while both sides hold unconsumed data
+    if (c.rc == HTP_STREAM_DATA_OTHER && c.consumed == 0 && !pending[1 - dir].empty()) { if (++stall >= 6) ss.report(std::string("C09:handover_livelock@") + c.in_state + "/" + c.out_state); }
+    else if (c.consumed > 0 || c.rc != HTP_STREAM_DATA_OTHER) stall = 0;
     return &c;
 }
 
